@@ -107,8 +107,8 @@ def run(tier, seed):
     rng = ctx.rng
     reps = 10 if tier == "quick" else 100
     for n in range(1, 17):
-        for rep in range(reps + 3):
-            ph, style = P.corner_phases(rng, n, style=(None if rep < reps else ["nearly-real", "chebyshev", "mirror"][rep - reps]))
+        for rep in range(reps + 5):
+            ph, style = P.corner_phases(rng, n, style=(None if rep < reps else ["nearly-real", "chebyshev", "mirror", "degree-drop-adjacent", "degree-drop-adjacent"][rep - reps]))
             Pc = P.corner_poly(ph)
             tol = float(rng.choice([1e-6, 1e-6, 1e-4, 1e-8, 1e-10, 1e-12, 1e-14]))
             if rng.random() < 0.25:
